@@ -258,6 +258,13 @@ func canonValue(v any) string {
 		return canonMap(map[string]any(x))
 	case map[string]any:
 		return canonMap(x)
+	case []kvql.Expression:
+		// ListExpr.Execute returns the expression list itself
+		p := make([]string, len(x))
+		for i, e := range x {
+			p[i] = wireExpr(e)
+		}
+		return "E[" + strings.Join(p, " ") + "]"
 	}
 	return fmt.Sprintf("?%T", v)
 }
